@@ -61,6 +61,8 @@ mod c20;
 #[cfg(feature = "security")]
 mod c16;
 #[cfg(feature = "security")]
+mod c17;
+#[cfg(feature = "security")]
 mod c18;
 #[cfg(feature = "security")]
 mod c19;
@@ -177,6 +179,10 @@ fn main() {
       }
       0
     }
+    #[cfg(feature = "security")]
+    ("C17", None) => c17::run(&tier),
+    #[cfg(feature = "security")]
+    ("C17", Some(d)) => c17::replay(&d),
     #[cfg(feature = "security")]
     ("C18", None) => c18::run(&tier),
     #[cfg(feature = "security")]
